@@ -105,6 +105,15 @@ func (p *printer) space() {
 
 func (p *printer) newline() {
 	p.w.WriteByte('\n')
+	// here-documents begin after the next <newline>
+	for i, list := range p.stack {
+		p.stack[i] = nil
+		for _, r := range list {
+			p.word(r.Heredoc)
+			p.word(r.Delim)
+			p.w.WriteByte('\n')
+		}
+	}
 }
 
 func (p *printer) print(n ast.Node) (err error) {
